@@ -71,7 +71,7 @@ prop("C01",
      (S.damping() + S.writers() + S.registry(rnd, 120) if tier == "thorough" else sample(S.damping(), rnd, 10)),
      mc=lambda tier: [mc_pair(["openLo", "ka"])] if tier == "quick" else
      [mc_pair(["openLo", "ka", "upd"], dials=2), mc_pair(["openHi", "ka", "cease"], dials=2),
-      mc_pair(["openLo", "ka", "notif"], passive=True, conns=3)],
+      mc_pair(["openLo", "ka", "notif"], passive=True, conns=2, msgs=3)],
      nontrivial=lambda s, r: has_cb(r, "OnEstablished"),
      end_oracles={"overlap"},
      rule="scripts = environment scripts (connects, dial outcomes, messages, faults, timer advances, API calls) replayed on the real "
@@ -188,7 +188,8 @@ prop("C14",
 
 prop("C13",
      scripts=lambda tier, rnd: S.admission() + S.multi_listener() + S.pm_busy() + S.damping_exact() + sample(S.inbound_drop(), rnd, 22 if tier == "thorough" else 8),
-     mc=lambda tier: [mc_pair(["openLo", "ka", "notif"], conns=3 if tier == "thorough" else 2, msgs=2)],
+     mc=lambda tier: [mc_pair(["openLo", "ka", "notif"], conns=2, msgs=2)] if tier == "quick" else
+     [mc_pair(["openLo", "ka", "notif", "cease"], conns=2, msgs=2, dials=2), mc_pair(["openHi", "ka", "upd"], conns=2, msgs=2, passive=True)],
      nontrivial=lambda s, r: any(e["e"] == "acc" for e in syscheck.events_of(r)),
      rule="peer sets x (source, destination) pairs incl. IPv6 and IPv4-mapped x peer state at arrival; a refused connection "
           "sees no byte and no callback")
